@@ -159,6 +159,31 @@ func baseName(s string) string {
 // cliModel computes the expectation for one process. fs is the file system
 // before the process starts (not modified); stdin is what it would read.
 func cliModel(bin, arg0 string, argv []string, fs *simos.FS, stdin []byte) (e Expect) {
+	if simos.TreeHasGoroutines && simos.T != nil && !simos.Scheduled() {
+		// the library of this tree starts goroutines: the model's own library
+		// calls run under the scheduler too (from the first go statement on),
+		// so that a goroutine that panics or blocks cannot take the harness down
+		simos.ArmTrip(true)
+		e = cliModel1(bin, arg0, argv, fs, stdin)
+		trip := simos.Tripped()
+		simos.ArmTrip(false)
+		if !trip {
+			return e
+		}
+		r := simos.RunScheduled(strSeed(strings.Join(argv, " ")), func() { e = cliModel1(bin, arg0, argv, fs, stdin) })
+		harvestSched()
+		switch {
+		case r.Crash != nil:
+			e = Expect{Defined: false, Why: "a goroutine of the library panicked inside the model: " + r.Crash.Value}
+		case r.Deadlock:
+			e = Expect{Defined: false, Why: "the library deadlocked inside the model"}
+		}
+		return e
+	}
+	return cliModel1(bin, arg0, argv, fs, stdin)
+}
+
+func cliModel1(bin, arg0 string, argv []string, fs *simos.FS, stdin []byte) (e Expect) {
 	defer func() {
 		if r := recover(); r != nil {
 			e = Expect{Defined: false, Why: fmt.Sprintf("library panicked inside the model: %v", r)}
